@@ -397,6 +397,10 @@ class Wtp:
 
         if self.backup_db_path.exists():
             self.db_path.unlink(True)
+            # a write-ahead log left behind by an unclean exit belongs to the
+            # replaced database and must not be replayed onto the backup
+            for suffix in ("-wal", "-shm"):
+                self.db_path.with_name(self.db_path.name + suffix).unlink(True)
             self.backup_db_path.rename(self.db_path)
 
         self.db_conn = sqlite3.connect(self.db_path, check_same_thread=False)
